@@ -40,12 +40,12 @@ claim("C04", "exploration", "prod",
       "DESIGN.md §7 C04")
 claim("C05", "fault_enumeration", "prod",
       "runtime monitor: simulated brokers enforce Kafka's producer id/epoch/sequence rules; oracles over the partition logs (no duplicate, success implies present) and over the sequence of batches received per (partition, producer id, epoch); hook facts attribute violations to mechanisms",
-      "Enumerated fault words x retry budget with idempotence on, random scenarios (half of them submitting sequentially so that no fresh input arrives inside a retry window), the deep-retry directed family of C01, and cases that re-submit message objects handed back by the producer (judged by record ids and per-epoch sequence continuity). In the clean context (retriable error codes only, no failed message) any deviation is reported with its kind; after a connection fault or a failed message the pinned tree has three known mechanisms (KNOWN_FINDINGS.txt).",
+      "Enumerated fault words x retry budget with idempotence on, random scenarios (half of them submitting sequentially so that no fresh input arrives inside a retry window), the deep-retry directed family of C01, and cases that re-submit message objects handed back by the producer (two in three with the partition worker held at hook pp.newhwm until the first re-used object was sent; judged by record ids and per-epoch sequence continuity). In the clean context (retriable error codes only, no failed message) any deviation is reported with its kind; after a connection fault or a failed message the pinned tree has three known mechanisms (KNOWN_FINDINGS.txt).",
       "Held on the executions of the run, in the clean context; after connection faults / failed messages the known findings apply.",
       "DESIGN.md §7 C05, §8")
 claim("C16", "exploration", "prod",
       "runtime monitor: sizes and counts of every produce request measured at the simulated cluster (wire size, per-partition key+value bytes, records per request), rejection outcomes, and a quiescence-judged flush clause after the input stops",
-      "Message sizes straddling each limit x Flush.{Messages,Bytes,Frequency,MaxMessages} x MaxMessageBytes x lowered MaxRequestSize x version x partitions per broker, answers delayed by steering so batches accumulate; record headers in 40% of the 0.11+ scenarios; delayed-retry scenarios (only Flush.Frequency, answers slower than the frequency, a retriable refusal, input for several partitions meanwhile, then the input stops).",
+      "Message sizes straddling each limit x Flush.{Messages,Bytes,Frequency,MaxMessages} x MaxMessageBytes x lowered MaxRequestSize x version x partitions per broker, answers delayed by steering so batches accumulate; record headers in 40% of the 0.11+ scenarios; delayed-retry scenarios (only Flush.Frequency, answers slower than the frequency, a retriable refusal, input for several partitions meanwhile, then the input stops); cases that refill message objects handed back earlier with payloads of another size (small / just fitting / 0.6 x limit / oversize, 2-3 rounds) and send them again.",
       "Held on the executions of the run. MaxMessageBytes is kept below MaxRequestSize (the other order is a misconfiguration outside the statement).",
       "DESIGN.md §7 C16")
 
@@ -91,19 +91,19 @@ claim("C06", "exploration", "om",
 
 claim("C07", "fault_enumeration", "group",
       "runtime monitor of real ConsumerGroup members (each with its own client) against a simulated group coordinator implementing Kafka's group state machine: trace automaton per Consume call over a recording handler (Setup / ConsumeClaim / Cleanup), coordinator-side event log for identities, start offsets, final commits and assignments, delivery coverage across sessions, quiescence-judged termination, race detector",
-      "Enumerated core: every single fault (and fault after one ok; pairs in thorough) x request kind (find-coordinator, join, sync, heartbeat, commit, leave, offset-fetch; join faults also on the 2nd-4th join) x two handler behaviours on a one-member scenario; plus seeded scenarios with 1-3 members, 1-2 topics, 3 strategies, 7 handler behaviours (incl. marking inside Cleanup), late joiners, Close mid-session, context cancellation, pre-stored commits (inside, below and beyond the log), Consumer.Offsets.Retention, claims that cannot be started (ListOffsets failing per partition), members without claims. Injected UNKNOWN_MEMBER_ID answers are made true at the coordinator (the member is removed).",
+      "Enumerated core: every single fault (and fault after one ok; pairs in thorough) x request kind (find-coordinator, join, sync, heartbeat, commit, leave, offset-fetch; join faults also on the 2nd-4th join) x two handler behaviours on a one-member scenario; plus seeded scenarios with 1-3 members, 1-2 topics, 3 strategies, 7 handler behaviours (incl. marking inside Cleanup), late joiners, Close mid-session, context cancellation, pre-stored commits (inside, below and beyond the log), Consumer.Offsets.Retention, claims that cannot be started (ListOffsets failing per partition), members without claims. Injected UNKNOWN_MEMBER_ID answers are made true at the coordinator (the member is removed); UNKNOWN_MEMBER_ID anywhere and ILLEGAL_GENERATION on a join or sync count as fencing for the fresh-identity clause.",
       "Held on the executions of the run. The final-commit clause is only judged when the member's commit path was not disturbed by injected faults; 'exactly one claim unless the session is ending' is judged as at-most-one, plus: an assigned partition without ConsumeClaim in a session that goes on for 12+ successful heartbeats after its last claim started is a violation.",
       "DESIGN.md §7 C07")
 
 claim("C19", "fault_enumeration", "admin",
       "runtime monitor of the real ClusterAdmin against the simulated cluster's admin side: every admin request is logged at the broker that received it (was it controller / leader / coordinator then, what it answered), return values are judged by a reference model per operation",
-      "Enumerated (operation x Admin.Retry.Max in {0,1,2,5} x controller moves 0..Retry.Max+1 x 16 error codes at top and item level, omitted items, dropped connections), leader/coordinator-bound operations spread over 1-4 brokers, 9 Kafka versions incl. below-minimum, shared and concurrently used admins, admins on a Metadata.Full=false client that looked up a missing topic, plus seeded random cases; ~4 100 admin calls in quick, ~49 000 in thorough. State changes at the cluster are compared with the reported outcome.",
+      "Enumerated (operation x Admin.Retry.Max in {0,1,2,5} x controller moves 0..Retry.Max+1 x 16 error codes at top and item level, omitted items, dropped connections), leader/coordinator-bound operations spread over 1-4 brokers, 9 Kafka versions incl. below-minimum, shared and concurrently used admins, admins on a Metadata.Full=false client that looked up a missing topic, controller moves whose election is still running when the admin refreshes (one metadata answer reports controller -1), plus seeded random cases; ~4 100 admin calls in quick, ~49 000 in thorough. State changes at the cluster are compared with the reported outcome.",
       "Held on the calls of the run. ListPartitionReassignments is only exercised fault-free (not among the statement's controller-bound operations); DescribeLogDirs for unknown broker ids is not generated; client-side connection errors under concurrent callers are counted, not judged.",
       "DESIGN.md §7 C19")
 
 claim("C15", "exploration", "client",
       "runtime monitor of the real Client against the simulated cluster: every metadata response served is versioned, the cl.applied hook (inside the client's write lock) and the deregistration log line give the order in which the client changed state, every API read samples the applied-event count before and after the call and must equal the reference fold of some prefix inside that window; reachability enumerated over unreachable / refusing / mid-request-failing subsets; race detector",
-      "200 (quick) / 5000 (thorough) metadata histories of 5-60 steps (topics appear/vanish/err per class, partitions added/removed, leaders move or vanish, brokers added/removed/readdressed/swapped, full vs per-topic refresh; 1 history in 12 is a flip history: leadership keeps leaving a broker that is readdressed in the same response, under 3-6 readers spinning on Leader) with 1-8 concurrent readers and an optional 1 ms background refresher, sequential histories for the after-refresh clause, plus 465 enumerated and 60 random reachability cases for NewClient and RefreshMetadata with Retry.Max 0/1.",
+      "200 (quick) / 5000 (thorough) metadata histories of 5-60 steps (topics appear/vanish/err per class, partitions added/removed, leaders move or vanish, brokers added/removed/readdressed/swapped, full vs per-topic refresh; 1 history in 12 is a flip history: leadership keeps leaving a broker that is readdressed in the same response, under 3-6 readers spinning on Leader) with 1-8 concurrent readers and an optional 1 ms background refresher, sequential histories for the after-refresh clause, plus 471 enumerated and 60 random reachability cases for NewClient and RefreshMetadata with Retry.Max 0/1 (six of them: a total outage met by 2-8 callers refreshing at once, after which the first broker returns).",
       "Held on the executions of the run. Where the statement is silent (WritablePartitions for a leader id that is not a known broker; empty partition lists) either answer is accepted and counted.",
       "DESIGN.md §7 C15")
 
@@ -115,7 +115,7 @@ claim("C12", "fault_enumeration", "shutdown",
 
 claim("C14", "exploration", "broker",
       "runtime monitor of the real Broker against a raw frame server (unix socket): every call carries a token that the server echoes into its typed response, per-connection event log of frames received / sent and of requests received but not yet answered; oracles for crosstalk, delivery of mismatching answers, success after a connection fault, stuck calls (quiescence), duplicate correlation ids on a connection and the in-flight bound; race detector",
-      "180 enumerated core cases (each single-fault server behaviour x MaxOpenRequests x callers, pile-up cases) plus 300 (quick) / 10 000 (thorough) seeded cases: 1-16 caller goroutines, nine request kinds (incl. flexible-header and acks=0), MaxOpenRequests in {1,2,3,5}, a client-side write that times out with nothing written (20% of the cases), server behaviour words over answer / delay / hold-until-k-pending / swapped / wrong id / stale id / truncated header or body / short or oversize length / bad tag / close / silence, Close and re-Open racing with calls.",
+      "180 enumerated core cases (each single-fault server behaviour x MaxOpenRequests x callers, pile-up cases) plus 300 (quick) / 10 000 (thorough) seeded cases: 1-16 caller goroutines, nine request kinds (incl. flexible-header and acks=0), MaxOpenRequests in {1,2,3,5}, a client-side write that times out with nothing written (20% of the cases), server behaviour words over answer / delay / hold-until-k-pending / swapped / wrong id / stale id / truncated header or body / short or oversize length / bad tag / close / silence (Net.ReadTimeout 150 ms against Net.WriteTimeout 60 s wherever the server goes silent), Close and re-Open racing with calls.",
       "Held on the executions of the run apart from the known in-flight finding (max+1). An i/o timeout without injected silence is inconclusive; Close itself hanging is C12's clause.",
       "DESIGN.md §7 C14")
 
